@@ -115,9 +115,10 @@ static int model_unlock(pthread_mutex_t* m, bool* known)
   MutexState& s = it->second;
   if(--s.count > 0) return 0;
   observe(SYNC_RELEASE, m);
-  vc_tick();
+  // release: the lock takes the clock of the critical section, the releasing task moves on to a new epoch
   s.vc = vclock();
   s.has_vc = true;
+  vc_tick();
   s.owner = -1;
   return 0;
 }
